@@ -3,7 +3,7 @@ from pyvc.verify import Post, Case, Equiv
 from contracts import common
 
 PROPERTY = 'C03'
-REF_MODULES = ['ref_auto', 'ref_core', 'ref_match', 'ref_reduce']
+REF_MODULES = ['ref_auto', 'ref_core', 'ref_match', 'ref_reduce', 'ref_extra']
 
 
 def config(cfg):
@@ -36,6 +36,8 @@ def contracts():
     cs.append(Equiv('ref_auto.pipe_law_rhs', 'ref_auto.pipe_law_lhs', label='LEMMA C03.pipe',
                     args={'target': 'ref', 'a': 'ref', 'b': 'ref', 'scope': 'chainmap'},
                     requires=['True']))
+    from contracts import extra
+    cs += common.shared(extra, ['core.Invoke.glomit', 'core.Coalesce.__init__', 'core.Call.__init__'])
     return cs
 
 
